@@ -29,6 +29,8 @@ func init() {
 
 func runC07(c *core.Ctx, r *core.Reporter) {
 	c.BuildSSA()
+	c07tag(c, r)
+	c.BuildSSA()
 	c07forward(c, r)
 	c07target(c, r)
 	c07cleanup(c, r)
@@ -758,4 +760,80 @@ func c07class(c *core.Ctx, r *core.Reporter) {
 	}
 	_ = sort.Strings
 	r.Count("class.recover_handlers", n)
+}
+
+// c07tag: "go ... transfers control to the lexically matching tag and nowhere else". In the Call method of
+// tagbody (a) an element is evaluated only after a test that it is not a tag: a label reached by falling
+// through is not a variable reference; (b) a go whose tag is not among this tagbody's elements is handed on
+// to the enclosing form: the *GoTo value can reach the return. Before the repair every element was evaluated
+// ("Variable a is unbound") and an unmatched go ended the tagbody normally.
+func c07tag(c *core.Ctx, r *core.Reporter) {
+	const rule = "C07.tag"
+	r.Rule(rule, "tagbody evaluates an element only under a test that it is not a tag, and returns a go it cannot resolve to the enclosing form", 2)
+	b := c.ByName("pkg/cl", "tagbody")
+	if b == nil || b.Call == nil {
+		r.Undecided(rule, "pkg/cl:tagbody", "-", "form not found in the registry")
+		return
+	}
+	fn := c.SSAFunc(b.Call)
+	an := lenflow.New(c)
+	// (a)
+	for _, blk := range fn.Blocks {
+		for _, in := range blk.Instrs {
+			call, ok := in.(*ssa.Call)
+			if !ok {
+				continue
+			}
+			cal := call.Call.StaticCallee()
+			if cal == nil || cal.Name() != "EvalArg" {
+				continue
+			}
+			guarded := core.Separates(fn, blk, an.NoReturn, func(ifi *ssa.If, branch bool) bool {
+				// a boolean produced from the element: a call taking args[i], or a type test of it
+				var src ssa.Value = ifi.Cond
+				if u, ok := src.(*ssa.UnOp); ok {
+					src = u.X
+				}
+				switch x := src.(type) {
+				case *ssa.Call:
+					for _, a := range x.Call.Args {
+						if isElementLoad(a) {
+							return true
+						}
+					}
+				case *ssa.Extract:
+					if ta, ok := x.Tuple.(*ssa.TypeAssert); ok && isElementLoad(ta.X) {
+						return true
+					}
+				}
+				return false
+			})
+			r.Decide(guarded, rule, "pkg/cl:tagbody|element tested before it is evaluated", c.Pos(call.Pos()), fmt.Sprintf("the evaluation is reached only through a test of the element (tag or form): %v", guarded))
+		}
+	}
+	// (b)
+	returned := false
+	for _, blk := range fn.Blocks {
+		if ret, ok := blk.Instrs[len(blk.Instrs)-1].(*ssa.Return); ok {
+			for _, rv := range ret.Results {
+				if mi, ok := rv.(*ssa.MakeInterface); ok {
+					if pt, ok := mi.X.Type().(*types.Pointer); ok {
+						if n, ok := pt.Elem().(*types.Named); ok && n.Obj().Name() == "GoTo" {
+							returned = true
+						}
+					}
+				}
+			}
+		}
+	}
+	r.Decide(returned, rule, "pkg/cl:tagbody|unresolved go is returned", c.Pos(fn.Pos()), fmt.Sprintf("some return hands a *GoTo back to the enclosing form: %v", returned))
+}
+
+func isElementLoad(v ssa.Value) bool {
+	u, ok := v.(*ssa.UnOp)
+	if !ok {
+		return false
+	}
+	_, ok = u.X.(*ssa.IndexAddr)
+	return ok
 }
